@@ -11,7 +11,7 @@
        callers in libp2p.go, discovery's handlePeersList, ReadMsg / ReadHeader, Connect on gossiped
        underlays): [entry_input] describes what a remote peer can deliver, [panics i] the condition
        under which the Go code as it is now panics on i, [panics_gen f] the same with some of the
-       three repairs (c3de1fc, c47eaee, 1f15f90) removed.  The classification is what the drivers
+       three repairs (c3de1fc, c47eaee, 0c53096) removed.  The classification is what the drivers
        compare the real entry points against on every run (check/Check_C06.v).
 
    Premises, all explicit: [recover_total cr] = crypto.SigToPub returns an error instead of
@@ -143,7 +143,7 @@ Print Assumptions C06_no_panic_bidder_api.
      verifyResp     bytes.Equal(resp.ObservedAddress, ...)    any length; string comparison
      Handle         new(HandshakeReq) / stream.ReadMsg error returned; ethAddress.Bytes(); p2p.FromString: default -1
      Handshake      the same in the other order
-     handleConnectReq  s.metrics.Failed...Count.Inc()         counters always exist (1f15f90, Generated.v);
+     handleConnectReq  s.metrics.Failed...Count.Inc()         counters always exist (0c53096, Generated.v);
                     peer dereferenced only when err == nil (Handle returns a non-nil peer then); s.notifier != nil tested
      Connect        addrInfo.UnmarshalJSON error returned; len(Addrs) == 0 tested; p dereferenced only when err == nil
    None of these indexes, slices or dereferences peer-controlled data without a guard, which is why the result
@@ -245,7 +245,7 @@ Theorem C06_verify_bid_v0_panics_iff : forall f b, f_siglen f = false ->
 Proof. exact verify_bid_in_v0_iff. Qed.
 Print Assumptions C06_verify_bid_v0_panics_iff.
 
-(* Without 1f15f90 every failed handshake, inbound or outbound, crashed a Service that was created
+(* Without 0c53096 every failed handshake, inbound or outbound, crashed a Service that was created
    without a metrics registry. *)
 Theorem C06_handshake_failure_v0_refuted :
   panics_gen without_metrics (EE2EInbound false E2ForeignSig) = true /\
